@@ -745,6 +745,9 @@ CONSTS = [
         "NICE_COMPONENT_STATE_CONNECTING", "NICE_COMPONENT_STATE_CONNECTED",
         "NICE_COMPONENT_STATE_READY", "NICE_COMPONENT_STATE_FAILED", "NICE_COMPONENT_STATE_LAST",
     ]),
+    ("agent/stream.h", [  # C18 (SDP credentials / default candidates)
+        "NICE_STREAM_MAX_UFRAG", "NICE_STREAM_MAX_PWD", "NICE_COMPONENT_TYPE_RTP", "NICE_COMPONENT_TYPE_RTCP",
+    ]),
     ("agent/pseudotcp.h", [
         "PSEUDO_TCP_LISTEN", "PSEUDO_TCP_SYN_SENT", "PSEUDO_TCP_SYN_RECEIVED", "PSEUDO_TCP_ESTABLISHED",
         "PSEUDO_TCP_CLOSED", "PSEUDO_TCP_FIN_WAIT_1", "PSEUDO_TCP_FIN_WAIT_2", "PSEUDO_TCP_CLOSING",
